@@ -341,8 +341,18 @@ def run_reduced(ctx, chi, kinds, grids, obs, n_mech, psi, sig, seed, pre, plan):
     base = np.concatenate([np.asarray(psi, float), np.asarray(sig, float)])
     net = {}
     ems = []
+    # the caller may hand over ONE error model object for several outputs (`[em] * n_outputs`): every output still
+    # has its own error parameters
+    share = bool(np.random.default_rng(seed * 7 + len(plan)).random() < 0.5)
+    first_of_kind = {}
+    inp['one_error_model_object_for_outputs_of_the_same_kind'] = share
     for o, k in enumerate(kinds):
+        if share and pre[o] is None and k in first_of_kind:
+            ems.append(ems[first_of_kind[k]])
+            continue
         em = c04.classes(chi)[k][0]()
+        if pre[o] is None:
+            first_of_kind.setdefault(k, o)
         if pre[o] is not None:
             loc_names = em.get_parameter_names()
             em = chi.ReducedErrorModel(em)
